@@ -164,7 +164,12 @@ func runFinalizeProposal(ctx *action.Context, tx action.RawTx) (bool, action.Res
 
 	//Handle Result TBD
 	if voteStatus.Result == governance.VOTE_RESULT_TBD {
-		return helpers.LogAndReturnFalse(ctx.Logger, governance.ErrVotingTBD, finalizedProposal.Tags(), err)
+		// votes that expired undecided have failed the proposal: it is finalised like a failed one,
+		// otherwise its funds, which cannot be withdrawn once the goal was met, stay locked for good
+		if proposal.Outcome != governance.ProposalOutcomeInsufficientVotes {
+			return helpers.LogAndReturnFalse(ctx.Logger, governance.ErrVotingTBD, finalizedProposal.Tags(), err)
+		}
+		voteStatus.Result = governance.VOTE_RESULT_FAILED
 	}
 	options, err := ctx.GovernanceStore.GetProposalOptionsByType(proposal.Type)
 	if err != nil {
@@ -252,6 +257,9 @@ func distributeFunds(ctx *action.Context, proposal *governance.Proposal, proposa
 		return action.ErrGettingValidatorList
 	}
 	ctx.Logger.Detailf("Transferring to Validators ")
+	if len(validatorList) == 0 {
+		return action.ErrGettingValidatorList
+	}
 	validatorEarningOLT := getPercentageCoin(&totalFundsCoin, &fundTracker, proposalDistribution.Validators).Divide(len(validatorList))
 	for _, v := range validatorList {
 		ctx.Logger.Detailf("Validator : \"%v\" : \"%v", v.Address.String(), validatorEarningOLT)
